@@ -4,7 +4,7 @@
 # 2. runs the property's check against a scratch worktree carrying only the patch
 D=$1; TIER=${2:-quick}
 ID=$(basename $D); PROP=${ID:0:3}
-OUT=/var/tmp/seed_eval; mkdir -p $OUT
+OUT=${SEED_EVAL_OUT:-/var/tmp/seed_eval}; mkdir -p $OUT
 R=$OUT/$ID.txt; : > $R
 WT=/var/tmp/seedwt_$ID
 git -C /repo worktree remove --force $WT >/dev/null 2>&1
